@@ -21,6 +21,10 @@ ASSUMES = [
 TRUSTED = [
     "twisted.internet.testing.StringTransport as the byte sink (write/writeSequence concatenate)",
     "bytes.replace with a one-byte pattern behaves as a per-byte substitution",
+    "harness/py2lean.py (translator: TelnetTransport.write and the ProtocolTransportMixin.write it calls are regenerated into "
+    "lean/Generated/Telnet.lean on every run — each method as the bytes it hands on, the chained data.replace(b'\\xff', "
+    "b'\\xff\\xff') / data.replace(b'\\n', b'\\r\\n') as the translator's fixed pyReplace1; translator-regenerated kernel proved "
+    "equal to the model: TwistedProps.C38.gen_write, gen_wire)",
 ]
 MANIFEST = {
     "text": "Lean theorems (TwistedProps/C38.lean): for every history of write/writeSequence calls with CR-free byte "
@@ -28,11 +32,13 @@ MANIFEST = {
             "machine raises nothing, makes no commandReceived/negotiate call, delivers exactly the written bytes to "
             "applicationDataReceived and ends in state 'data'; every LF travels as CR LF. Proved via a byte-level trace "
             "semantics shown equal to the chunked loop with its local buffer (segmentation invariance for every non-raising "
-            "stream) and a literal-consumption lemma for the escape image. Model tied to telnet.py by differential runs of "
+            "stream) and a literal-consumption lemma for the escape image. TelnetTransport.write's escaping is regenerated from "
+            "telnet.py by the translator on every run and proved equal to the model's write (gen_write). Model tied to telnet.py by differential runs of "
             "sender and receiver, event by event.",
     "note": "trusts Lean kernel, the hand-written model of TelnetTransport.write/writeSequence and Telnet.dataReceived "
             "(differentially tied), StringTransport, CPython bytes.replace",
-    "technique": "Lean 4 proof (trace semantics + induction over bytes/segments) + differential tie",
+    "technique": "Lean 4 proof (trace semantics + induction over bytes/segments) + differential tie + translator-regenerated "
+                 "kernel (TelnetTransport.write) proved equal to the model",
     "design_ref": "DESIGN.md §7 C38",
 }
 
